@@ -160,7 +160,7 @@ func resetGlobals() {
 	alloc.SimReset()
 	dht.SimReset()
 	httpclient.SimReset()
-	config.MemoryMark = 0
+	config.MemoryMark = 1 << 30 // package main derives it from physical memory; 0 would disable paths guarded by the low mark
 	config.PrefetchRate = 0
 	config.SetIdleRate(64 * 1024)
 	config.SetUploadRate(512 * 1024)
